@@ -899,10 +899,9 @@ func (s *Sim) applyVote(slot int, op Op) (Outcome, string) {
 		min := tmconsensus.ByzantineMinority(vs.AvailablePower)
 		if vs.TotalPrecommitPower >= min {
 			s.jumpVotingRound()
-			maj := tmconsensus.ByzantineMajority(vs.AvailablePower)
-			if vs.PrecommitBlockPower[vs.MostVotedPrecommitHash] >= maj {
-				// kernel: panic("TODO: handle a majority precommit for NextRound")
-				return out, "A5"
+			// kernel (since fix d02baf8): the round jumped to is evaluated like any voting round
+			if f := s.checkVotingPrecommitViewShift(); f != "" {
+				return out, f
 			}
 		}
 	}
